@@ -151,8 +151,13 @@ impl Gen {
             return Bar { o: p, h: p, l: p, c: p, v };
         }
         if r == Regime::Stair {
-            // identical bars (hence identical typical prices) while the price rests
-            return Bar { o: p, h: p * 1.01, l: p * 0.99, c: p, v: if v == 0.0 { 1.0 } else { v } };
+            // while the price rests the typical price is EXACTLY the same, but the bar is composed
+            // differently: prices on a dyadic grid (11 significant bits), so that close + high + low is
+            // exact and equal for (P, P+2u, P-2u) and (P-u, P+3u, P-2u)
+            let u = 2f64.powi(p.abs().max(f64::MIN_POSITIVE).log2().floor() as i32 - 10);
+            let g = (p / u).round() * u;
+            let vol = if v == 0.0 { 1.0 } else { v };
+            return if self.t % 2 == 0 { Bar { o: g, h: g + 2.0 * u, l: g - 2.0 * u, c: g, v: vol } } else { Bar { o: g, h: g + 3.0 * u, l: g - 2.0 * u, c: g - u, v: vol } };
         }
         let h = p * 1.01;
         let l = p * 0.99;
